@@ -530,7 +530,7 @@ Fixpoint row_tie (widths : list (str * Q)) (fonts : omat Z) (sizes : omat Q) (ro
         let prev := match width_idx with O => 0 # 1 | S k => nth k cw (0 # 1) end in
         match (do font <- cell_font fonts row_idx width_idx;
                do size <- cell_size sizes row_idx width_idx;
-               width_at widths (py_str v) font size) with
+               width_at widths (display v) font size) with
         | Ok tw => (negb (Qeqb tw (0 # 1)) && is_int_tie (tw / (cur - prev)))
                    || row_tie widths fonts sizes row_idx removed cw rest (S col_idx) (S width_idx)
         | Err _ => row_tie widths fonts sizes row_idx removed cw rest (S col_idx) (S width_idx)
